@@ -40,7 +40,7 @@ pub const TABLES: &[&str] = &[
     "system_schema.scylla_keyspaces",
 ];
 const CONN_FAULTS: &[&str] = &["fin", "rst", "garbage", "unsol", "stall", "cut"];
-const DB_CODES: &[u32] = &[0x2200, 0x0000, 0x1001, 0x2000, 0x2100, 0x2300, 0x000A, 0x1002];
+const DB_CODES: &[u32] = &[0x2200, 0x0000, 0x1001, 0x2000, 0x2100, 0x2300, 0x000A, 0x1002, 0x0100, 0x1003];
 const CDC: &str = "com.scylladb.dht.CDCPartitioner";
 
 pub fn generate(rng: &mut Rng, quick: bool, emit: &mut dyn FnMut(String)) {
